@@ -144,6 +144,10 @@ func init() {
 		ID:  "C14",
 		New: func() interface{} { return &C14Case{} },
 		Gen: func(t *rapid.T, ctx *Ctx) interface{} {
+			// the array-size meter is representation dependent for bit-array chunks that end inside a
+			// byte (2 chunks of 3 + 1 bits are 2 bytes of chunk data, but 1 byte once a text codec has
+			// re-packed them): keep bit chunks byte aligned here
+			gen.UnalignedBitChunks = false
 			c := &C14Case{}
 			c.Limit = limits[rapid.IntRange(0, len(limits)-1).Draw(t, "limit")]
 			c.Delta = rapid.IntRange(-1, 1).Draw(t, "delta")
